@@ -181,7 +181,15 @@ static void part_factory(const std::vector<size_t>& ns, const std::string& zfile
             if (s > 0 && xi >= -1) add(ResistiveWall(n, frev, fmax, physcons::c / frev, s, xi, radius));
             if (0 < crad && crad < radius) add(CollimatorImpedance(n, fmax, radius, crad));
         }
-        if (!f.empty()) add(Impedance(f, fmax));
+        if (!f.empty()) {
+            // the table as the file states it, read here (rows "label Re Im" in file order, a row repeating the label of the row before is skipped) - not through Impedance's own reader
+            std::ifstream is(f); long lab, old = -1; double re, im; std::vector<impedance_t> rows; bool first = true;
+            while (is >> lab >> re >> im) { if (first || lab != old) rows.push_back(impedance_t((float)re, (float)im)); old = lab; first = false; }
+            any = true; for (size_t i = 0; i < std::min<size_t>(n, rows.size()); i++) want[i] += rows[i];
+            Impedance direct(f, fmax);
+            if (direct.impedance().size() != rows.size() || direct.nFreqs() != rows.size()) { R.violate("C16/table/sample-count", kase, "Impedance(file) holds " + std::to_string(direct.impedance().size()) + " samples, the file " + std::to_string(rows.size()) + " rows"); }
+            else for (size_t i = 0; i < rows.size(); i++) if (direct.impedance()[i] != rows[i]) { R.violate("C16/table/sample-is-not-the-row", kase, "sample " + std::to_string(i) + " = " + mcx::fstr(direct.impedance()[i].real()) + ", row " + std::to_string(i) + " of the file says " + mcx::fstr(rows[i].real())); break; }
+        }
         R.eval(kase, got ? zhash(got->impedance(), kase) : mcx::fnvs(kase + "null"), !any);
         if (!any) { if (got != nullptr) R.violate("C16/factory/something-from-nothing", kase, "no contribution selected but an impedance was returned"); continue; }
         if (got == nullptr) { R.violate("C16/factory/nothing-returned", kase, "contributions selected but nullptr returned"); continue; }
